@@ -62,12 +62,13 @@ PROPS["C03"] = {
     "level": "fault_enumeration",
     "engines": [
         {"bin": "hv", "args": ["c03"]},
+        {"bin": "hvt", "args": ["c03"]},
     ],
     "min": {"quick": {"evaluations": 300_000, "truncation_cases": 3_000},
             "thorough": {"evaluations": 3_000_000}},
     "assumptions": [],
     "level_text": "Every parser is called on enumerated short strings over its protocol alphabet, every truncation of every seed message, structure-aware mutants (boundary/huge length fields, removed/doubled delimiters, multi-byte and invalid UTF-8 at every slicing position, deep nesting) and random bytes, inside isolated worker processes watched for panic (site), abort/stack overflow (signal), spinning, CPU exhaustion and allocation beyond a multiple of the bytes supplied.",
-    "level_note": "Trusted: the kernel's process isolation, the harness's counting allocator and timers. The tokio request parser is exercised through C02/C01 only (same code shape; its enumeration twin is not built).",
+    "level_note": "Trusted: the kernel's process isolation, the harness's counting allocator and timers. The tokio request parser has its own enumeration twin (hvt c03).",
     "technique": "runtime monitoring: fault enumeration in isolated worker processes with panic/abort/CPU/allocation monitors",
 }
 
